@@ -1,0 +1,41 @@
+// verif hook H1: force-included (see flags_verif.go) when the wrapper is built
+// with -tags verif against the system librocksdb (7.x) instead of c-deps (6.x).
+// It papers over three API differences without touching any wrapper source:
+//  - rocksdb_backup_engine_restore_db_from_backup now exists upstream with a
+//    different argument order: extended.h/.cpp's own version gets a private name;
+//  - rocksdb_block_based_options_set_hash_index_allow_collision was removed
+//    (the option no longer exists): no-op;
+//  - rocksdb_filterpolicy_create_bloom[_full] take a double.
+#ifndef QED_VERIF_SHIM_H
+#define QED_VERIF_SHIM_H
+
+#include <stdint.h>
+#include "rocksdb/c.h"
+
+#define rocksdb_backup_engine_restore_db_from_backup qed_backup_engine_restore_db_from_backup
+
+#ifdef __cplusplus
+extern "C" {
+#endif
+
+static inline void rocksdb_block_based_options_set_hash_index_allow_collision(
+    rocksdb_block_based_table_options_t* o, unsigned char v) {
+  (void)o;
+  (void)v;
+}
+
+static inline rocksdb_filterpolicy_t* qed_filterpolicy_create_bloom(int bits_per_key) {
+  return rocksdb_filterpolicy_create_bloom((double)bits_per_key);
+}
+static inline rocksdb_filterpolicy_t* qed_filterpolicy_create_bloom_full(int bits_per_key) {
+  return rocksdb_filterpolicy_create_bloom_full((double)bits_per_key);
+}
+
+#ifdef __cplusplus
+}
+#endif
+
+#define rocksdb_filterpolicy_create_bloom qed_filterpolicy_create_bloom
+#define rocksdb_filterpolicy_create_bloom_full qed_filterpolicy_create_bloom_full
+
+#endif
